@@ -180,6 +180,9 @@ def gen_lock(rng, idx, tier, force=None):
     c["delete_at"] = None
     if c["biases"] and seg == "none" and (force.get("delete") or rng.random() < 0.25):
         c["delete_at"] = rng.randint(5, T - 5)
+    # a third of the single-process sessions without trajectory file define the variable (and its biases) only after the session
+    # has run 60 steps with another variable: its first step is not the first step of the run
+    c["late"] = 60 if (seg in ("none", "newrun") and not c["traj"] and idx % 3 == 1) else 0
     return c
 
 
@@ -236,6 +239,13 @@ def header(case, proc, wd, light=False):
     s += "module\n"
     if case["traj"] or case["seg"].startswith("restart"):
         s += "prefix p%d\n" % proc              # relative: esim runs in the case's directory (replays stay runnable)
+    if case.get("late") and proc == 0:
+        other = ctl.cv_d1() if case["var"] != "d1" else ctl.cv_d3()
+        s += "config <<EOC\n" + other + "EOC\ninit\n"
+        for _ in range(case["late"]):
+            s += pos(case, case["hist"][0]) + "step\n"
+        s += "config <<EOC\n" + config(case) + "EOC\n"
+        return s
     s += "config <<EOC\n" + config(case) + "EOC\n"
     if proc > 0:
         s += "inprefix p%d\n" % (proc - 1)
@@ -300,13 +310,18 @@ def steps_of(out, case):
     ev = out["ev"]
     res, i = [], 0
     st = [j for j, e in enumerate(ev) if e["ev"] == "step"]
+    off = case.get("late", 0)
+    st = st[off:]
     if len(st) != len(out["plan"]):
         return None
     for j, (t, rep) in zip(st, out["plan"]):
         e = ev[j]
         g = ev[j + 1]["g"] if j + 1 < len(ev) and ev[j + 1]["ev"] == "gauss" else []
-        if e["it"] != t:
+        if e["it"] != t + off:
             return None
+        if off:
+            e = dict(e)
+            e["it"] = t
         res.append((t, rep, e, [fl(x) for x in g]))
     return res
 
@@ -478,7 +493,8 @@ def analyse(c, case, outs):
                     F_nb += fo
                     A_nb += abs(fo)
             # ---- model ---------------------------------------------------------------------------
-            fresh = (e["rel"] == 0 and ip == 0 and not rep and model.x is None)
+            # (a variable defined in the middle of a session starts like one defined before the first step: from the actual value)
+            fresh = ((e["rel"] == 0 or case.get("late")) and ip == 0 and not rep and model.x is None)
             if model.x is None and not fresh:
                 V.bad = ("harness", "first active step is not step 0 of a fresh run")
                 return V
